@@ -57,6 +57,12 @@ def cases(draw, tier):
         if g.boolean():
             blocks.append(mk(g.integer(1, 3)))
         tree = {"k": "bd", "ch": blocks, "mult": [g.integer(1, 2) for _ in blocks] if g.boolean() else None}
+    if draw(st.integers(1, 10)) == 1:
+        # two blocks that are different VIEWS of one buffer (B and B^T): same address, shape and dtype, different strides
+        m = g.integer(2, 4)
+        dt = g.pick(["f8", "c16", "c16"])
+        B = g.pd_matrix(m, dt) if fn == "cholesky" else g.dd_matrix(m, dt)
+        tree = {"k": "viewpair", "a": gen.enc(np.ascontiguousarray(B).astype(gen.NPDT[dt]))}
     # graded rows (plu): row i of every dense leaf multiplied by 10^e_i, e_i in -5..5 (partial pivoting is normwise stable)
     grade = [draw(st.integers(-5, 5)) for _ in range(6)] if fn == "plu" and draw(st.integers(1, 4)) == 1 else None
     return {"fn": fn, "tree": tree, "scale_exp": draw(st.sampled_from([0, 0, 0, -12, -6, 6, -20])), "row_grade": grade}
